@@ -40,13 +40,23 @@ Step(t, e) ==
              t1 == IF e.res >= 0 /\ ~\E c \in own : c.mac = e.res
                    THEN Viol(t0, e, "resolved to a hardware address that is not the owner's (or the configured gateway's)") ELSE t0
              t2 == IF exch /\ e.res < 0 THEN Viol(t1, e, "a request/reply exchange got through but the resolution failed") ELSE t1
+             \* (a resolution that failed although the answer to its LAST request was on its way is judged at the end of the
+             \* run, when the reply is in the trace: LateExchange)
              t3 == IF own = {} /\ e.res >= 0 THEN Viol(t2, e, "an address nobody claims was resolved") ELSE t2
              t4 == IF e.t - r.t0 > 2000000 + 4 * t.lat THEN Viol(t3, e, "a resolution took longer than the bounded retry period (10 x 200 ms)") ELSE t3
              \* concurrent resolvers of one address on one machine get the same answer
              t5 == IF \E d \in t.done : d.m = r.m /\ d.target = r.target /\ d.t1 > r.t0 /\ d.res # e.res
                    THEN Viol(t4, e, "concurrent resolvers of the same address on one machine got different answers") ELSE t4
-         IN [t5 EXCEPT !.open = @ \ {r}, !.done = @ \cup {[rid |-> r.rid, m |-> r.m, target |-> r.target, t0 |-> r.t0, t1 |-> e.t, res |-> e.res]}]
-    [] e.ev = "end" -> IF t.open = {} THEN t0 ELSE Viol(t0, e, "a resolution never returned (hangs)")
+         IN [t5 EXCEPT !.open = @ \ {r}, !.done = @ \cup {[rid |-> r.rid, m |-> r.m, mac |-> r.mac, target |-> r.target, t0 |-> r.t0, t1 |-> e.t, res |-> e.res, i |-> e.i]}]
+    [] e.ev = "end" ->
+         LET t1 == IF t.open = {} THEN t0 ELSE Viol(t0, e, "a resolution never returned (hangs)")
+             \* every request of the retry budget counts: a resolver that gives up while the reply to a request it sent
+             \* (and that was delivered) is delivered to it has not used its budget
+             late == {d \in t.done : d.res < 0 /\
+                        \E q \in t.wires : q.oper = 1 /\ q.ok /\ q.smac = d.mac /\ q.tip = d.target /\ q.t >= d.t0 /\ q.t <= d.t1 /\
+                          \E p \in t.wires : p.oper = 2 /\ p.ok /\ p.sip = d.target /\ p.dst = d.mac /\ p.t >= q.t /\ p.t <= q.t + 2 * t.lat + 1000}
+         IN IF late = {} THEN t1
+            ELSE Viol(t1, [e EXCEPT !.i = (CHOOSE d \in late : TRUE).i], "a request/reply exchange of the retry budget got through but the resolution failed")
     [] e.ev = "panic" -> Viol(t0, e, "panic: " \o e.msg \o " at " \o e.loc)
     [] e.ev = "hang" -> Viol(t0, e, "the scenario never ended: the code under test kept producing events without bound or stopped making progress (" \o e.why \o ")")
     [] OTHER -> t0
